@@ -8,6 +8,15 @@ namespace Petl.Snapshot
 open Petl.Gen
 
 def expectedC15 : List (String × String) := [
+  ("file:io/base.py", "e2315106bbcaaf95"),
+  ("file:io/csv.py", "143722bf0e79c91e"),
+  ("file:io/csv_py3.py", "c1e744ce52bf68bb"),
+  ("file:io/html.py", "860313482e8c113f"),
+  ("file:io/json.py", "9a87ae69473e052e"),
+  ("file:io/pickle.py", "40e23d34076571f8"),
+  ("file:io/sources.py", "7c2b0cb2619a6b10"),
+  ("file:io/text.py", "b72fac07748bae66"),
+  ("file:util/base.py", "771a68108eeb730d"),
   ("io.csv_py3.CSVView", "eaf3783a92f57ad7"),
   ("io.csv_py3._writecsv", "9694ef1e4cf29325"),
   ("io.csv_py3.appendcsv_impl", "7583da41b0241cd7"),
